@@ -155,6 +155,7 @@ def run_cell(ctx, tr, cell, sigk):
         wantI, wantE, wantX = dict(cfg['imf_opts']), dict(cfg['envelope_opts']), dict(cfg['extrema_opts'])
 
     np.random.seed(12345)
+    ret = None
     tr.begin('%s|%s|%d|%d%d%d' % (v, route, npr, i, e, xi))
     try:
         with watchdog(120):
@@ -178,15 +179,17 @@ def run_cell(ctx, tr, cell, sigk):
                 S.get_mask_freqs(x[:, None], ['zc', 'if'][(i + e + xi) % 2], **opts)
             else:
                 func = getattr(S, name)
+                if name == 'mask_sift':
+                    extra['ret_mask_freq'] = True
                 if cfg is None:
-                    func(x, **extra, **opts)
+                    ret = func(x, **extra, **opts)
                 else:
                     for k, val in extra.items():
                         cfg[k] = val
                     if route == 'cfg':
-                        func(x, **cfg)
+                        ret = func(x, **cfg)
                     else:
-                        cfg.get_func()(x)
+                        ret = cfg.get_func()(x)
     except WatchdogTimeout:
         ctx.count('watchdog')
         ctx.case(digest(cell), False)
@@ -214,6 +217,20 @@ def run_cell(ctx, tr, cell, sigk):
         ctx.count('pool_variant_without_worker_events')
     if not stages >= {'gni', 'env', 'ext'}:
         ctx.count('calls_missing_a_stage')
+    # second oracle (output level): the first mask frequency must be the one estimated from the first IMF extracted
+    # WITH the supplied options (a stale or default-option estimate leaves the stage events of the masked sifts intact)
+    if name == 'mask_sift' and v.split(':')[1] in ('zc', 'if') and isinstance(ret, tuple):
+        from emd import spectra as SP
+        first, _ = S.get_next_imf(x[:, None], envelope_opts=wantE, extrema_opts=wantX, **wantI)
+        if v.endswith('zc'):
+            z0 = int((np.diff(np.sign(first[:, 0])) != 0).sum()) / len(x) / 4
+        else:
+            _, IF, IA = SP.frequency_transform(first, 1, 'nht', smooth_phase=3)
+            z0 = np.average(IF, weights=IA)
+        ctx.count('first_mask_frequency_checks')
+        if abs(ret[1][0] - z0) > 1e-12 * max(abs(z0), 1e-12):
+            ctx.violation('first-mask-frequency:%s' % v.split(':')[1], '%s (route %s): first mask frequency %.6g is not the estimate %.6g obtained from '
+                          'the first IMF extracted with the supplied options' % (v, route, ret[1][0], z0), case)
     bad = judge(events, wantI, wantE, wantX)
     if bad:
         seen = set()
@@ -253,6 +270,25 @@ def run_shard(ctx):
     else:
         todo = [(c, sk) for c in cells for sk in range(3)]
     mine = [c for k, c in enumerate(todo) if k % ctx.nshards == ctx.shard]
+    if ctx.shard % 2 == 1:
+        # the emd logger is process-global state that earlier steps of a session may have left behind: half of the
+        # shards run every call with the logger set up (which switches the 'emd' logger itself to DEBUG)
+        import sys
+        import emd
+
+        class _Null:
+            def write(self, s_):
+                return len(s_)
+
+            def flush(self):
+                pass
+        old_stdout = sys.stdout
+        sys.stdout = _Null()
+        try:
+            emd.logger.set_up(level='CRITICAL')
+        finally:
+            sys.stdout = old_stdout
+        ctx.count('shards_with_logger_set_up')
     with StageTrace(tdir, targets) as tr:
         for k, (cell, sk) in enumerate(mine):
             if ctx.out_of_time():
